@@ -478,8 +478,34 @@ func (e *Engine) feasible(c *Term) bool {
 			e.keepModel(m)
 		}
 	}
+	var script string
+	if r == Unknown {
+		script = e.solver.Script(nil, true)
+	}
 	e.solver.Pop()
 	if r == Unknown {
+		// second opinion from the other solver families before keeping the branch blindly
+		others := []string{"cvc5", "cvc5-int"}
+		if strings.HasPrefix(e.job.Primary, "cvc5") {
+			others = []string{"z3-new", "z3"}
+		}
+		r2, m2, _, _ := Portfolio(script, e.job.FeasTimeout, e.stats, "feasibility-portfolio", others, false)
+		switch r2 {
+		case Sat:
+			memo := map[int]uint64{}
+			ok := e.st.Eval(c, m2, memo) != 0
+			for _, p := range e.pc {
+				if ok && e.st.Eval(p, m2, memo) == 0 {
+					ok = false
+				}
+			}
+			if ok {
+				e.keepModel(m2)
+			}
+			return true
+		case Unsat:
+			return false
+		}
 		e.res.FeasUnknown++
 		return true
 	}
